@@ -189,6 +189,20 @@ fn gen_fleaf(g: &mut Rng) -> FLeaf {
         18..=20 => return FLeaf::LacksKey(gen_key(g)),
         21..=28 => return FLeaf::Budget(g.below(40)),
         29..=52 => return gen_typed_leaf(g),
+        // leaves that decide on keys of the renamed-key call sites
+        53..=62 => {
+            let k = g.pick(&SITE_KEYS).to_string();
+            return match g.below(5) {
+                0..=1 => FLeaf::HasKey(k),
+                2 => FLeaf::LacksKey(k),
+                3 => FLeaf::FirstEq(k, gen_val(g).text()),
+                _ => {
+                    let ty = *g.pick(&[Ty::I64, Ty::Bool, Ty::Str, Ty::String]);
+                    let want = if g.chance(1, 4) { None } else { (0..8).find_map(|_| gen_val(g).cast(ty)) };
+                    FLeaf::Pull(k, ty, want)
+                }
+            };
+        }
         _ => {}
     }
     match g.below(100) {
@@ -304,6 +318,138 @@ enum CtxtKind {
     Fixed,
     ThreadLocal,
     Empty,
+}
+
+
+// ---------------------------------------------------------------------------
+// hand-written macro call sites whose properties are renamed with #[emit::key]: the macro's
+// property list is ordered by IDENTIFIER while the keys sort elsewhere, and `get` / `pull` (what
+// filters use) and `for_each` (what destinations enumerate) are separate code paths
+// ---------------------------------------------------------------------------
+
+/// keys filters may look for at those sites: renamed keys, unrenamed neighbours, and identifiers
+/// that are NOT keys once renamed
+const SITE_KEYS: [&str; 14] = ["user.name", "request_id", "a", "b", "m.mid", "alpha", "omega", "zz.last", "b0", "b1", "opt", "kept", "name", "z"];
+
+/// The values one event feeds into a call site.
+#[derive(Clone, Debug)]
+struct SiteVals {
+    m: [MVal; 6],
+    o: [Option<MVal>; 6],
+}
+
+fn gen_site_vals(g: &mut Rng) -> SiteVals {
+    SiteVals {
+        m: [gen_val(g), gen_val(g), gen_val(g), gen_val(g), gen_val(g), gen_val(g)],
+        o: [(); 6].map(|_| if g.bool() { Some(gen_val(g)) } else { None }),
+    }
+}
+
+macro_rules! renamed_sites {
+    ($v:ident; $( $idx:literal : $emit:ident / $evt:ident, $lvl:expr, $tpl:literal, model [$( ($key:literal, $val:expr) ),*], { $($props:tt)* } ; )*) => {
+        const N_RENAMED_SITES: usize = [$($idx),*].len();
+
+        /// The final (key, value) pairs the site attaches, in no particular order; absent optional /
+        /// cfg'd-out properties are left out. `lvl` is what the level macros add.
+        fn renamed_site_model(site: usize, $v: &SiteVals) -> (&'static str, Vec<(String, MVal)>) {
+            match site {
+                $( $idx => {
+                    let mut out: Vec<(String, MVal)> = Vec::new();
+                    $( if let Some(val) = $val { out.push(($key.to_string(), val)); } )*
+                    if let Some(l) = $lvl { out.push(("lvl".to_string(), MVal::Lvl(l))); }
+                    ($tpl, out)
+                } )*
+                _ => unreachable!(),
+            }
+        }
+
+        /// The site's own property list as the macro builds it, enumerated: (key, text) in its order.
+        fn renamed_site_readback(site: usize, $v: &SiteVals) -> Vec<(String, String)> {
+            let mut out = Vec::new();
+            match site {
+                $( $idx => {
+                    let e = emit::$evt!($tpl, $($props)*);
+                    let _ = e.props().for_each(|k, v| {
+                        out.push((k.get().to_string(), v.to_string()));
+                        ControlFlow::Continue(())
+                    });
+                } )*
+                _ => unreachable!(),
+            }
+            out
+        }
+
+        /// Emit through the site: directly (`emit!` / level macro) or as `emit!(evt: evt!(..))`.
+        fn renamed_site_emit<E: Emitter, F: Filter, C: Ctxt, T: emit::Clock, W: Filter>(
+            site: usize,
+            via_evt: bool,
+            rt: &Runtime<E, F, C, T, Empty>,
+            when: Option<&W>,
+            mdl: &str,
+            ext: MExt,
+            base: &[(String, MVal)],
+            $v: &SiteVals,
+        ) {
+            let mdl = Path::new_ref_raw(mdl);
+            let ext = ext.real();
+            match (site, via_evt, when) {
+                $(
+                    ($idx, false, Some(w)) => emit::$emit!(rt: rt, mdl: mdl, extent: ext, props: base, when: w, $tpl, $($props)*),
+                    ($idx, false, None) => emit::$emit!(rt: rt, mdl: mdl, extent: ext, props: base, $tpl, $($props)*),
+                    ($idx, true, Some(w)) => emit::emit!(rt: rt, when: w, evt: emit::$evt!(mdl: mdl, extent: ext, props: base, $tpl, $($props)*)),
+                    ($idx, true, None) => emit::emit!(rt: rt, evt: emit::$evt!(mdl: mdl, extent: ext, props: base, $tpl, $($props)*)),
+                )*
+                _ => unreachable!(),
+            }
+        }
+    };
+}
+
+renamed_sites! { v;
+    // identifiers: name, request_id          keys: user.name, request_id   (renamed key sorts last)
+    0: emit / evt, None::<usize>, "renamed site zero",
+        model [("user.name", Some(v.m[0].clone())), ("request_id", Some(v.m[1].clone()))],
+        { #[emit::key("user.name")] #[emit::as_value] name: v.m[0], #[emit::as_value] request_id: v.m[1] };
+    // identifiers: b, z                      keys: b, a                    (renamed key sorts first)
+    1: emit / evt, None::<usize>, "renamed site one",
+        model [("a", Some(v.m[0].clone())), ("b", Some(v.m[1].clone()))],
+        { #[emit::key("a")] #[emit::as_value] z: v.m[0], #[emit::as_value] b: v.m[1] };
+    // identifiers: alpha, lvl, omega, zed    keys: alpha, lvl, omega, m.mid (renamed key sorts in the middle)
+    2: warn / warn_evt, Some(2usize), "renamed site two",
+        model [("alpha", Some(v.m[0].clone())), ("m.mid", Some(v.m[1].clone())), ("omega", Some(v.m[2].clone()))],
+        { #[emit::as_value] alpha: v.m[0], #[emit::key("m.mid")] #[emit::as_value] zed: v.m[1], #[emit::as_value] omega: v.m[2] };
+    // six properties: two renamed, an optional one, one cfg'd out, one cfg'd in
+    3: emit / evt, None::<usize>, "renamed site three",
+        model [("zz.last", Some(v.m[0].clone())), ("b1", Some(v.m[1].clone())), ("b0", Some(v.m[2].clone())), ("opt", v.o[3].clone()), ("kept", Some(v.m[5].clone()))],
+        { #[emit::key("zz.last")] #[emit::as_value] a1: v.m[0], #[emit::as_value] b1: v.m[1], #[emit::key("b0")] #[emit::as_value] y1: v.m[2],
+          #[emit::optional] #[emit::as_value] opt: v.o[3].as_ref(), #[cfg(any())] #[emit::as_value] gone: v.m[4], #[cfg(all())] #[emit::as_value] kept: v.m[5] };
+    // every property renamed, one of them optional, keys in reverse identifier order
+    4: error / error_evt, Some(3usize), "renamed site four",
+        model [("request_id", Some(v.m[0].clone())), ("a", Some(v.m[1].clone())), ("opt", v.o[2].clone())],
+        { #[emit::key("request_id")] #[emit::as_value] aaa: v.m[0], #[emit::key("a")] #[emit::as_value] second: v.m[1],
+          #[emit::optional] #[emit::key("opt")] #[emit::as_value] third: v.o[2].as_ref() };
+    // renamed keys that swap places with each other's identifiers
+    5: debug / debug_evt, Some(0usize), "renamed site five",
+        model [("b", Some(v.m[0].clone())), ("a", Some(v.m[1].clone())), ("user.name", Some(v.m[2].clone())), ("z", Some(v.m[3].clone()))],
+        { #[emit::key("b")] #[emit::as_value] a: v.m[0], #[emit::key("a")] #[emit::as_value] b: v.m[1], #[emit::key("user.name")] #[emit::as_value] m: v.m[2], #[emit::as_value] z: v.m[3] };
+}
+
+/// The model event a renamed-key site hands to the pipeline: the site's own properties in the
+/// order the macro enumerates them (read back; it must be exactly the final key set), then the
+/// base properties. `Err` names what is wrong with the enumeration.
+fn renamed_site_event(site: usize, raw: &MEvent, v: &SiteVals) -> Result<MEvent, String> {
+    let (tpl, model) = renamed_site_model(site, v);
+    let seen = renamed_site_readback(site, v);
+    let mut a: Vec<(String, String)> = model.iter().map(|(k, v)| (k.clone(), v.text())).collect();
+    let mut b = seen.clone();
+    a.sort();
+    b.sort();
+    if a != b {
+        return Err(format!("the site's property list enumerates {:?}, its final keys and values are {:?}", seen, a));
+    }
+    let mut props: MProps = seen.iter().map(|(k, _)| model.iter().find(|(mk, _)| mk == k).unwrap().clone()).collect();
+    props.extend(raw.props.iter().cloned());
+    Ok(MEvent { mdl: raw.mdl.clone(), tpl: vec![TPart::Text(tpl.to_string())], ext: raw.ext, props })
 }
 
 // ---------------------------------------------------------------------------
@@ -423,6 +569,8 @@ struct Case {
     /// a statically typed (non-erased) filter over table leaves: shape and leaf indices
     typed_shape: u64,
     typed_leaves: [usize; 3],
+    /// per event: what it feeds into the renamed-key call sites
+    site_vals: Vec<SiteVals>,
 }
 
 fn gen_case(seed: u64, index: u64) -> Case {
@@ -455,7 +603,8 @@ fn gen_case(seed: u64, index: u64) -> Case {
     let flush_timeout = Duration::from_millis(g.below(10_000));
     let typed_shape = g.below(3);
     let typed_leaves = [g.usize(N_FLEAVES), g.usize(N_FLEAVES), g.usize(N_FLEAVES)];
-    Case { seed, index, cx, f, w, d, ambient, kind, events, flush_timeout, typed_shape, typed_leaves }
+    let site_vals = (0..k).map(|_| gen_site_vals(&mut g)).collect();
+    Case { seed, index, cx, f, w, d, ambient, kind, events, flush_timeout, typed_shape, typed_leaves, site_vals }
 }
 
 impl Case {
